@@ -79,7 +79,9 @@ func (e *env) reportCase(from, opt Spelling, vp [2]int64) {
 	a := &ap.AP{Types: []ap.VT{{Type: "t", Unit: from.S}}, Maps: enum.Maps2,
 		Stacks: []ap.Stack{oneFrame("a", 0x1000, vp[0]), oneFrame("b", 0x2000, vp[1])}}
 	p := ap.Concretize(a, ap.Opts{})
-	flags := []string{"top"}
+	// nodefraction=0: the small entry of a pair must stay in the report (the report-wide unit choice of
+	// unit=minimum looks at the smallest and the largest entry shown)
+	flags := []string{"top", "nodefraction=0"}
 	if opt.Form != "default" {
 		flags = append(flags, "unit="+opt.S)
 	}
